@@ -451,6 +451,20 @@ func (g *gen) closeBid() *Op {
 }
 
 func (g *gen) createLease() *Op {
+	// a bid its provider withdrew while the order stayed open
+	if g.w.R.Bool(6+g.bias["cl.withdrawn"], "cl.withdrawn") {
+		var cands []string
+		for _, k := range keysOf(g.s.Bids) {
+			b := g.s.Bids[k]
+			if o, ok := g.s.Orders[oid(b.BidID.OrderID())]; ok && b.State == mtypes.BidClosed && o.State == mtypes.OrderOpen {
+				cands = append(cands, k)
+			}
+		}
+		if len(cands) > 0 {
+			id := g.s.Bids[cands[g.w.R.Choose(len(cands), "cl.withdrawn.which")]].BidID
+			return &Op{Kind: "CreateLease", Msg: mtypes.NewMsgCreateLease(id), Required: g.w.ActorByAddr(id.Owner)}
+		}
+	}
 	id := g.pickBid(func(x mtypes.Bid) bool { return x.State == mtypes.BidOpen }, "cl")
 	return &Op{Kind: "CreateLease", Msg: mtypes.NewMsgCreateLease(id), Required: g.w.ActorByAddr(id.Owner)}
 }
